@@ -7,7 +7,7 @@ Extraction Language OCaml.
 Cd "../ocaml/gen".
 Extraction "except.ml"
   check map_check mip_check box_add_constraint_check mip_add_constraint_check mip_add_constraints_check
-  tr_init tr_iter_ctor tr_old_iter_ctor tr_copy_ctor tr_assign tr_rebuild_bigger tr_dense_resize tr_dense_copy tr_sv_reserve
+  tr_init tr_iter_ctor tr_old_iter_ctor tr_copy_ctor tr_assign tr_rebuild_bigger tr_dense_resize tr_dense_copy tr_dense_copy_sized tr_dense_copy_cap tr_dense_resize2 tr_dense_from_sparse tr_sv_reserve
   tr_mip_add tr_pip_copy tr_assign_valid tr_old_assign tr_old_assign_valid
   N.add N.sub N.mul N.of_nat N.compare.
 Cd "../../coq".
